@@ -286,6 +286,8 @@ class NP:
     elem_sort_real = st.kind in ('f', 'c')
     if len(kinds) >= 2 and kinds[0] == 'all' and kinds[1] == 'new' and all(k == 'all' for k in kinds[2:]):
       return TH.addaxis1(st.term)
+    if kinds == ['new', 'all'] and r == 1:
+      return TH.addaxis0(st.term)
     if kinds[0] == 'int' and all(k == 'all' for k in kinds[1:]):
       i = self.nonneg_index(cx, pattern[0][1], st.shape.dims[0])
       if r == 1:
@@ -447,6 +449,10 @@ class NP:
       elif isinstance(op, ast.Mult):
         term = TH.mul(lt, rt)
     elif ls is not None and rt is not None:
+      if isinstance(op, ast.Div):
+        term = TH.sdivl(ls, rt)
+      elif isinstance(op, ast.Add):
+        term = TH.sadd(rt, ls)
       if isinstance(op, ast.Mult):
         term = TH.neg(rt) if z3.simplify(ls == -1) is True or z3.is_true(z3.simplify(ls == -1)) else TH.smul(ls, rt)
     elif lt is not None and rs is not None:
@@ -458,9 +464,25 @@ class NP:
         term = TH.ssub(lt, rs)
       elif isinstance(op, ast.Add):
         term = TH.sadd(lt, rs)
+      elif isinstance(op, ast.Div):
+        term = TH.sdivr(lt, rs)
+    if term is None and isinstance(op, ast.Mult) and lt is not None and rt is not None:
+      if len(ld) == 2 and len(rd) == 1 and self._eq(cx, ld[1], rd[0]):
+        term = TH.colscale(lt, rt)
+      elif len(ld) == 2 and len(rd) == 2 and self._eq(cx, ld[1], rd[1]) and self._eq(cx, rd[0], z3.IntVal(1)):
+        term = TH.colscale2(lt, rt)
     if term is None:
       cx.note('value of array %s not modelled' % type(op).__name__)
     return [(p, cx.new(term, dims, kind))]
+
+  def _eq(self, cx, x, y):
+    if z3.simplify(x).eq(z3.simplify(y)):
+      return True
+    sv = z3.Solver()
+    sv.set(timeout=500)
+    sv.add(*[c for c in cx.p.pc if not z3.is_quantifier(c)])
+    sv.add(x != y)
+    return sv.check() == z3.unsat
 
   def unop(self, cx, op, v):
     st = cx.st(v)
